@@ -407,28 +407,44 @@ def _unpack_sites(prog, modules=READ_SIDE):
     return out
 
 
-def _read_size_of(fi, buf_expr, prog):
-    """Size in bytes of the buffer expression passed to unpack: a name defined by
-    X.read(N) or a constant slice of such a name. -> int or None"""
-    if isinstance(buf_expr, ast.Subscript) and isinstance(buf_expr.slice, ast.Slice):
-        lo = prog.try_fold(buf_expr.slice.lower, fi.module) if buf_expr.slice.lower is not None else 0
-        hi = prog.try_fold(buf_expr.slice.upper, fi.module) if buf_expr.slice.upper is not None else None
+def _read_size_of(fi, buf_expr, prog, call=None):
+    """Size in bytes of the buffer expression passed to unpack, from its normal form: X.read(N), or a constant slice of something.
+    N may be a constant, a module constant, or cls.size of the class the function belongs to.  -> int, 'cls.size' or None"""
+    from .sym import Sym
+    sy = Sym(prog, fi, fi.cls, inline=False)
+    env, _g = sy.env_at(call if call is not None else buf_expr)
+    v = sy.expr(buf_expr, env)
+
+    def const_of(x):
+        if x[0] == "const" and isinstance(x[1], int) and not isinstance(x[1], bool):
+            return x[1]
+        if x[0] == "attr" and x[2] == "size" and x[1] in (("param", "cls"), ("name", "cls"), ("param", "self"), ("name", "self")) and fi.cls is not None:
+            c = prog.class_const(fi.cls, "size")
+            return c if isinstance(c, int) else "cls.size"
+        if x == ("self", "size") and fi.cls is not None:
+            c = prog.class_const(fi.cls, "size")
+            return c if isinstance(c, int) else "cls.size"
+        return None
+    if v[0] == "sub" and isinstance(v[2], tuple) and v[2][0] == "slice":
+        lo = 0 if v[2][1] == ("const", None) else const_of(v[2][1])
+        hi = const_of(v[2][2])
         if isinstance(lo, int) and isinstance(hi, int):
             return hi - lo
         return None
-    if isinstance(buf_expr, ast.Name):
-        defs = _local_defs(fi.node, buf_expr.id)
+    if v[0] == "method" and v[1] == "read" and len(v[3]) == 1:
+        return const_of(v[3][0])
+    if v[0] == "phi":
         sizes = set()
-        for d in defs:
-            if isinstance(d, ast.Call) and isinstance(d.func, ast.Attribute) and d.func.attr == "read" and len(d.args) == 1:
-                v = prog.try_fold(d.args[0], fi.module)
-                if fi.cls is not None and v is None and dotted(d.args[0]) == "cls.size":
-                    return "cls.size"
-                sizes.add(v)
+        stack = [v]
+        while stack:
+            x = stack.pop()
+            if x[0] == "phi":
+                stack += [x[2], x[3]]
+            elif x[0] == "method" and x[1] == "read" and len(x[3]) == 1:
+                sizes.add(const_of(x[3][0]))
             else:
                 sizes.add(None)
-        if len(sizes) == 1:
-            return sizes.pop()
+        return sizes.pop() if len(sizes) == 1 else None
     return None
 
 
@@ -441,7 +457,7 @@ def bl1(ctx, R):
         pre, body = _format_parts(call.args[0], fi)
         key = "%s::unpack(%s)" % (fi.qual, unparse(call.args[0]))
         where = fi.where(call)
-        size = _read_size_of(fi, call.args[1], prog)
+        size = _read_size_of(fi, call.args[1], prog, call)
         if isinstance(body, str):
             want = struct.calcsize("<" + body.lstrip("<>=!@"))
             if size is None:
@@ -794,65 +810,183 @@ def _fmt_fields(fmt):
     return [ch for ch in fmt if ch in "Qq"]
 
 
+def _global_value(prog, mod, v, depth=0):
+    """canonical value of a module-level name"""
+    from .sym import Sym
+    if isinstance(v, tuple) and len(v) == 2 and v[0] in ("global", "name") and depth < 3:
+        e = mod.assigns.get(v[1])
+        if e is not None:
+            f0 = next(iter(f for f in prog.functions.values() if f.module is mod), None)
+            if f0 is not None:
+                return _global_value(prog, mod, Sym(prog, f0, None, inline=False).expr(e, {}), depth + 1)
+    return v
+
+
+def _endian_scenarios(v, endian_param):
+    """(value when endianness == '<', value when it is '>') of a canonical value"""
+    from .sym import simplify
+    out = []
+    for little in (True, False):
+        def orc(c, little=little):
+            if isinstance(c, tuple) and len(c) == 4 and c[0] == "cmp" and c[1] == "==":
+                for a, b in ((c[2], c[3]), (c[3], c[2])):
+                    if a == endian_param and b in (("const", "<"), ("const", ">")):
+                        return (b[1] == "<") == little
+            return None
+        out.append(simplify(v, orc))
+    return out
+
+
+def _fmt_letters(v, endian_param):
+    """letters of an unpack/pack format  endianness + 'Qq'  /  '<Qq'"""
+    if v[0] == "const" and isinstance(v[1], str):
+        return v[1].lstrip("<>=!@")
+    if v[0] == "binop" and v[1] == "+" and len(v[2]) == 2 and v[2][1][0] == "const" and isinstance(v[2][1][1], str):
+        return v[2][1][1]
+    return None
+
+
 @rule("BL4", "the sites that know the 16-byte timestamp layout agree (field order, signedness, by-name copy)", floor=9)
 def bl4(ctx, R):
+    """Layout: unsigned 64-bit fractions and signed 64-bit seconds; fractions first when little-endian, seconds first when big-endian.
+    Encoders, the scalar decoder and the array decoder are read in normal form (per byte order); which packed / unpacked value is the
+    fractions and which the seconds is decided by where it flows (TdmsTimestamp's seconds / second_fractions parameters and fields) or,
+    in the encoder from datetimes, by how it is computed (scaled by 2**64 per second vs. counted in whole seconds)."""
+    from .sym import Sym, show, alpha, simplify
+    from .sem import find, W, match, call_arg, calls_to
+    from .region import backward_slice
     prog = ctx.prog
-    # 1/2: writers: TimeStamp.__init__ and TdmsTimestamp.bytes pack '<Qq' (fractions, seconds)
+    TS = prog.cls("timestamp.TdmsTimestamp")
+    tinit = prog.func("timestamp.TdmsTimestamp.__init__")
+    # 1/2: encoders pack '<Qq' (fractions, seconds)
     for q, role in (("types.TimeStamp.__init__", "encoder"), ("timestamp.TdmsTimestamp.bytes", "raw encoder")):
         fi = prog.func(q)
-        packs = [c for c in walk_body(fi.node) if isinstance(c, ast.Call) and call_name(c) in PACK_NAMES]
+        sy = Sym(prog, fi, fi.cls)
+        packs = []
+        for c in walk_body(fi.node):
+            if isinstance(c, ast.Call):
+                env, _g = sy.env_at(c)
+                v = sy.expr(c, env)
+                fmt = args = None
+                if v[0] == "call" and str(v[1]).endswith("pack") and not str(v[1]).endswith("unpack") and v[2] and v[2][0][0] == "const":
+                    fmt, args = v[2][0][1], c.args[1:]
+                elif v[0] == "method" and v[1] == "pack":
+                    st = _global_value(prog, fi.module, v[2])
+                    if st[0] == "call" and str(st[1]).endswith("Struct") and st[2] and st[2][0][0] == "const":
+                        fmt, args = st[2][0][1], c.args
+                elif v[0] == "call" and isinstance(v[1], str):
+                    # alias of a bound pack method:  _pack = struct.Struct('<Qq').pack
+                    al = _global_value(prog, fi.module, ("global", v[1].split(".")[-1]))
+                    if al[0] == "attr" and al[2] == "pack" and al[1][0] == "call" and str(al[1][1]).endswith("Struct") and al[1][2] and al[1][2][0][0] == "const":
+                        fmt, args = al[1][2][0][1], c.args
+                if fmt is not None:
+                    packs.append((c, fmt, args, env))
         if len(packs) != 1:
             raise AnchorMissing("%s: one struct pack call" % q)
-        c = packs[0]
-        fmt = prog.try_fold(c.args[0], fi.module)
-        names = [(dotted(a) or unparse(a)).split(".")[-1] for a in c.args[1:]]
-        good = fmt == "<Qq" and len(names) == 2 and "fraction" in names[0] and names[1].startswith("seconds")
-        R.check(good, q + "::pack", fi.where(c), "'<Qq' (second_fractions, seconds)",
-                "timestamp %s packs %r with arguments %s; the layout is unsigned 64-bit fractions first, then signed 64-bit seconds" % (role, fmt, names))
-    # 3: TimeStamp.read: per-branch format and tuple order
+        c, fmt, args, env = packs[0]
+
+        def role_of(a):
+            v = sy.expr(a, env)
+            if v == ("self", "second_fractions"):
+                return "fractions"
+            if v == ("self", "seconds"):
+                return "seconds"
+            # how it is computed: scaled by a 2**64-per-second constant -> fractions; a count of whole seconds -> seconds
+            scaled = False
+            secs = False
+            for frames, e in backward_slice(ctx, fi, a):
+                g = frames[-1][0]
+                for x in ast.walk(e):
+                    if isinstance(x, ast.BinOp) and isinstance(x.op, ast.Mult):
+                        for side in (x.left, x.right):
+                            val = prog.try_fold(side, g.module, default=None)
+                            if val is None and isinstance(side, ast.Attribute) and g.cls is not None:
+                                val = prog.class_const(g.cls, side.attr)
+                            if isinstance(val, (int, float)) and any(abs(val - (2.0 ** 64) * 10.0 ** -k) <= 1e-6 * (2.0 ** 64) * 10.0 ** -k for k in (0, 3, 6, 9, 12)):
+                                scaled = True
+                    if isinstance(x, ast.Call) and (call_name(x) or "").endswith("timedelta64") and len(x.args) == 2 and prog.try_fold(x.args[1], g.module, default=None) == "s":
+                        secs = True
+            if scaled:
+                return "fractions"
+            if secs:
+                return "seconds"
+            return None
+        roles = [role_of(a) for a in args]
+        if None in roles:
+            R.undecided(q + "::pack", fi.where(c), "roles of the packed values not determined (%s)" % roles)
+        else:
+            R.check(fmt == "<Qq" and roles == ["fractions", "seconds"], q + "::pack", fi.where(c), "'<Qq' (second_fractions, seconds)",
+                    "timestamp %s packs %r with (%s); the layout is unsigned 64-bit fractions first, then signed 64-bit seconds" % (role, fmt, ", ".join(roles)))
+    # 3: TimeStamp.read per byte order: the signed value goes to seconds, the unsigned one to second_fractions; 'Qq' little, 'qQ' big
     fi = prog.func("types.TimeStamp.read")
-    branches = _endian_branches(fi)
-    for which, stmts in branches.items():
-        for s in stmts:
-            for n in walk_shallow(s):
-                if isinstance(n, ast.Assign) and isinstance(n.value, ast.Call) and call_name(n.value) in UNPACK_NAMES:
-                    pre, body = _format_parts(n.value.args[0], fi)
-                    names = [e.id for e in n.targets[0].elts] if isinstance(n.targets[0], ast.Tuple) else []
-                    want_fmt, want_first = ("Qq", "fraction") if which == "<" else ("qQ", "seconds")
-                    good = body == want_fmt and len(names) == 2 and want_first in names[0] and \
-                        all(("fraction" in nm) == (code == "Q") for nm, code in zip(names, body or ""))
-                    R.check(good, "types.TimeStamp.read::%s branch" % which, fi.where(n),
-                            "%s-endian: %r -> %s" % (which, body, names),
-                            "%s-endian branch unpacks %r into %s: the unsigned field must be the fractions and come %s" % (
-                                which, body, names, "first" if which == "<" else "second"))
-    ret = [n for n in walk_body(fi.node) if isinstance(n, ast.Return) and isinstance(n.value, ast.Call)]
-    for r in ret:
-        args = [dotted(a) for a in r.value.args]
-        R.check(len(args) == 2 and args[0] == "seconds" and args[1] and "fraction" in args[1], "types.TimeStamp.read::result", fi.where(r),
-                "TdmsTimestamp(seconds, second_fractions)", "TdmsTimestamp constructed with arguments %s (expects seconds, second_fractions)" % args)
-    # 4: TimeStamp.from_bytes: structured dtype per branch
+    EP = ("param", [p for p in fi.params if "endian" in p][0]) if any("endian" in p for p in fi.params) else None
+    if EP is None:
+        raise AnchorMissing("types.TimeStamp.read: byte order parameter")
+    v = Sym(prog, fi, fi.cls, inline=False).function_value()
+    sc = _endian_scenarios(v, EP)
+    if sc[0] == sc[1]:
+        raise AnchorMissing("types.TimeStamp.read: branch on the byte order")
+    ps = [p for p in tinit.params if p != "self"]
+    for which, val, want_fmt in (("<", sc[0], "Qq"), (">", sc[1], "qQ")):
+        key = "types.TimeStamp.read::%s branch" % which
+        m = match(("new", TS.qual, W("args"), W("kws")), val)
+        if m is None:
+            R.undecided(key, fi.where(), "result `%s` not understood" % show(alpha(val))[:120])
+            continue
+        bound = dict(zip(ps, m["args"]))
+        bound.update(dict(m["kws"]))
+        ok = True
+        detail = []
+        for pname, letter in (("seconds", "q"), ("second_fractions", "Q")):
+            a = bound.get(pname)
+            mm = match(("item", ("call", W("fn"), (W("fmt"), W("buf")), W()), W("i")), a) if a is not None else None
+            if mm is None:
+                mm2 = match(("sub", ("call", W("fn"), (W("fmt"), W("buf")), W()), ("const", W("i"))), a) if a is not None else None
+                mm = mm2
+            letters = _fmt_letters(mm["fmt"], EP) if mm else None
+            if mm is None or letters is None or not isinstance(mm["i"], int) or mm["i"] >= len(letters):
+                ok = None
+                break
+            detail.append("%s <- field %d of %r" % (pname, mm["i"], letters))
+            if letters[mm["i"]] != letter or letters != want_fmt:
+                ok = False
+        if ok is None:
+            R.undecided(key, fi.where(), "arguments of TdmsTimestamp not understood: %s" % show(alpha(val))[:120])
+        else:
+            R.check(ok, key, fi.where(), "%s-endian: %s" % (which, "; ".join(detail)),
+                    "%s-endian branch: %s (format must be %r; the unsigned field is the fractions and the signed one the seconds)" % (which, "; ".join(detail), want_fmt))
+    # 4: TimeStamp.from_bytes: structured dtype per byte order
     fi = prog.func("types.TimeStamp.from_bytes")
-    branches = _endian_branches(fi)
-    for which, stmts in branches.items():
-        for s in stmts:
-            for n in walk_shallow(s):
-                if isinstance(n, ast.Call) and call_name(n) in ("np.dtype", "numpy.dtype") and n.args and isinstance(n.args[0], ast.List):
-                    fields = prog.try_fold(n.args[0], fi.module)
-                    good = isinstance(fields, list) and len(fields) == 2
-                    if good:
-                        want = [("second_fractions", "<u8"), ("seconds", "<i8")] if which == "<" else [("seconds", ">i8"), ("second_fractions", ">u8")]
-                        good = [tuple(f) for f in fields] == want
-                    R.check(good, "types.TimeStamp.from_bytes::%s branch" % which, fi.where(n),
-                            "%s-endian layout %s" % (which, fields),
-                            "%s-endian array layout %s: expected unsigned fractions / signed seconds, fractions first only when little-endian, "
-                            "byte-order characters matching the branch" % (which, fields))
+    EP2 = ("param", [p for p in fi.params if "endian" in p][0])
+    v = Sym(prog, fi, fi.cls, inline=False).function_value()
+    sc = _endian_scenarios(v, EP2)
+    if sc[0] == sc[1]:
+        raise AnchorMissing("types.TimeStamp.from_bytes: branch on the byte order")
+    for which, val in (("<", sc[0]), (">", sc[1])):
+        key = "types.TimeStamp.from_bytes::%s branch" % which
+        views = find(val, ("method", "view", W(), (W("dt"),), W()))
+        fields = None
+        for x, b in views:
+            dt = _global_value(prog, fi.module, b["dt"])
+            mm = match(("call", W("fn"), (("list", W("items")),), W()), dt)
+            if mm is not None and str(mm["fn"]).endswith("dtype"):
+                try:
+                    fields = [(it[1][0][1], it[1][1][1]) for it in mm["items"]]
+                except Exception:
+                    fields = None
+        if fields is None:
+            R.undecided(key, fi.where(), "structured dtype of the view not understood")
+            continue
+        want = [("second_fractions", "<u8"), ("seconds", "<i8")] if which == "<" else [("seconds", ">i8"), ("second_fractions", ">u8")]
+        R.check(fields == want, key, fi.where(), "%s-endian layout %s" % (which, fields),
+                "%s-endian array layout %s: expected unsigned fractions / signed seconds, fractions first only when little-endian, "
+                "byte-order characters matching the branch" % (which, fields))
     # 5: TdmsTimestamp.__init__(seconds, second_fractions) stores by name
-    fi = prog.func("timestamp.TdmsTimestamp.__init__")
-    R.check(fi.params[1:3] == ["seconds", "second_fractions"], "timestamp.TdmsTimestamp.__init__::signature", fi.where(),
-            "(seconds, second_fractions)", "constructor parameter order changed to %s while callers pass (seconds, second_fractions)" % fi.params[1:])
-    for n in walk_body(fi.node):
-        if isinstance(n, ast.Assign) and isinstance(n.targets[0], ast.Attribute) and isinstance(n.value, ast.Name):
-            R.check(n.targets[0].attr == n.value.id, "timestamp.TdmsTimestamp.__init__::self.%s" % n.targets[0].attr, fi.where(n),
+    R.check(tinit.params[1:3] == ["seconds", "second_fractions"], "timestamp.TdmsTimestamp.__init__::signature", tinit.where(),
+            "(seconds, second_fractions)", "constructor parameter order changed to %s while callers pass (seconds, second_fractions)" % tinit.params[1:])
+    for n in walk_body(tinit.node):
+        if isinstance(n, ast.Assign) and isinstance(n.targets[0], ast.Attribute) and isinstance(n.value, ast.Name) and n.value.id in tinit.params:
+            R.check(n.targets[0].attr == n.value.id, "timestamp.TdmsTimestamp.__init__::self.%s" % n.targets[0].attr, tinit.where(n),
                     "stored by name", "self.%s = %s" % (n.targets[0].attr, n.value.id))
     # 6: TimestampArray._field_indices <-> __getitem__
     new = prog.func("timestamp.TimestampArray.__new__")
@@ -860,20 +994,26 @@ def bl4(ctx, R):
     for n in walk_body(new.node):
         if isinstance(n, ast.If) and isinstance(n.test, ast.Compare) and isinstance(n.test.comparators[0], ast.Tuple):
             names = prog.try_fold(n.test.comparators[0], new.module)
-            for s in n.body:
-                if isinstance(s, ast.Assign) and isinstance(s.targets[0], ast.Attribute) and s.targets[0].attr == "_field_indices":
-                    idx = prog.try_fold(s.value, new.module)
+            for s_ in n.body:
+                if isinstance(s_, ast.Assign) and isinstance(s_.targets[0], ast.Attribute) and s_.targets[0].attr == "_field_indices":
+                    idx = prog.try_fold(s_.value, new.module)
                     good = isinstance(names, tuple) and isinstance(idx, tuple) and len(idx) == 2 and \
                         names[idx[0]] == "seconds" and names[idx[1]] == "second_fractions"
-                    R.check(good, "timestamp.TimestampArray.__new__::%s" % (names,), new.where(s),
+                    R.check(good, "timestamp.TimestampArray.__new__::%s" % (names,), new.where(s_),
                             "_field_indices %s selects (seconds, second_fractions)" % (idx,),
                             "field names %s with _field_indices %s: index 0 must select 'seconds', index 1 'second_fractions'" % (names, idx))
+    sg = Sym(prog, gi, gi.cls, inline=False)
+    from .sem import norm_items
     for n in walk_body(gi.node):
-        if isinstance(n, ast.Call) and dotted(n.func) == "TdmsTimestamp" and len(n.args) == 2:
-            txt = [unparse(a) for a in n.args]
-            good = "_field_indices[0]" in txt[0] and "_field_indices[1]" in txt[1]
+        if isinstance(n, ast.Call) and isinstance(n.func, (ast.Name, ast.Attribute)) and prog.resolve_class(gi.module, n.func) is TS:
+            env, _g = sg.env_at(n)
+            a = norm_items(call_arg(prog, n, tinit, "seconds", sg, env))
+            b = norm_items(call_arg(prog, n, tinit, "second_fractions", sg, env))
+            FI = ("self", "_field_indices")
+            good = a is not None and b is not None and a[0] == "sub" and b[0] == "sub" and a[1] == b[1] and a[2] == ("item", FI, 0) and b[2] == ("item", FI, 1)
             R.check(good, "timestamp.TimestampArray.__getitem__::TdmsTimestamp(...)", gi.where(n),
-                    "TdmsTimestamp(val[idx[0]], val[idx[1]])", "scalar access builds TdmsTimestamp(%s, %s)" % tuple(txt))
+                    "TdmsTimestamp(val[idx[0]], val[idx[1]])", "scalar access builds TdmsTimestamp(seconds=%s, second_fractions=%s)" % (
+                        show(alpha(a))[:60] if a else None, show(alpha(b))[:60] if b else None))
     # 7: TimestampDataReceiver: native layout + copies by field name
     fi = prog.func("channel_data.TimestampDataReceiver.append_data")
     n_assign = 0
@@ -893,8 +1033,8 @@ def bl4(ctx, R):
                 n_assign += 1
                 fld = base.slice.value
                 v = n.value
-                same = isinstance(v, ast.Subscript) and isinstance(v.slice, ast.Constant) and v.slice.value == fld
-                R.check(same, "channel_data.TimestampDataReceiver.append_data::field %s" % fld, fi.where(n),
+                same_ = isinstance(v, ast.Subscript) and isinstance(v.slice, ast.Constant) and v.slice.value == fld
+                R.check(same_, "channel_data.TimestampDataReceiver.append_data::field %s" % fld, fi.where(n),
                         "copies field %r by name" % fld, "field %r is filled from `%s`" % (fld, unparse(v)))
     if n_assign < 1:
         raise AnchorMissing("channel_data.TimestampDataReceiver.append_data: stores into self.data")
